@@ -69,6 +69,7 @@ type c09Case struct {
 	PointMode  string `json:"points"` // pool | dup | identity | rep
 	Seed       uint64 `json:"seed"`
 	Mismatch   int    `json:"mismatch,omitempty"` // len(scalars) - len(points)
+	Noise      uint64 `json:"noise,omitempty"`
 }
 
 var msmThresholds = []int{49, 129, 321, 769, 1793, 4097, 9217, 20481}
@@ -80,6 +81,7 @@ func genC09(t *rapid.T) c09Case {
 		PointMode:  rapid.SampledFrom([]string{"pool", "pool", "pool", "dup", "identity", "rep"}).Draw(t, "points"),
 		Seed:       rapid.Uint64().Draw(t, "seed"),
 		Mont:       rapid.Bool().Draw(t, "mont"),
+		Noise:      noiseSeedFrom(rapid.Uint64().Draw(t, "noise")),
 	}
 	switch rapid.IntRange(0, 9).Draw(t, "n_class") {
 	case 0, 1:
@@ -220,6 +222,9 @@ func evalC09(c c09Case, rec *hx.Rec) error {
 	msmPool()
 	rec.Eval(1)
 	rec.Sample(c)
+	if c.Noise%4 == 1 {
+		runNoise(c.Noise, 2, false)
+	}
 	n := c.N
 	ns := n + c.Mismatch
 	if ns < 0 {
